@@ -133,19 +133,19 @@ type memberInfo struct {
 }
 
 type EventMon struct {
-	node     *SimNode
-	inflight atomic.Int32
-	mu       sync.Mutex
-	present  map[string]memberInfo
-	log      []EvRec
-	perName  map[string][]EvRec
-	Events   atomic.Int64
-	InCbCmp  atomic.Int64
-	Widen    bool
-	OnEvent  func(ev EvRec)
-	Cells    map[string]int64 // transition x cause, filled when TrackCause is set
+	node       *SimNode
+	inflight   atomic.Int32
+	mu         sync.Mutex
+	present    map[string]memberInfo
+	log        []EvRec
+	perName    map[string][]EvRec
+	Events     atomic.Int64
+	InCbCmp    atomic.Int64
+	Widen      bool
+	OnEvent    func(ev EvRec)
+	Cells      map[string]int64 // transition x cause, filled when TrackCause is set
 	TrackCause bool
-	lastLeave map[string]string // name -> "left" | "dead"
+	lastLeave  map[string]string // name -> "left" | "dead"
 }
 
 // causeFromStack names what made memberlist deliver the event.
